@@ -187,9 +187,22 @@ def _v2(ctx, rep):
             else:
                 prop, kind, tname = fields[fld]
                 od = kwarg(v, "objdict")
+                od_name = od.id if isinstance(od, ast.Name) else None
                 od = defs.get(od.id) if isinstance(od, ast.Name) else od
+                if isinstance(od, ast.Dict) and all(isinstance(k, ast.Constant) for k in od.keys):
+                    od = ast.Call(func=ast.Name(id="dict", ctx=ast.Load()), args=[],
+                                  keywords=[ast.keyword(arg=k.value, value=x) for k, x in zip(od.keys, od.values)])
                 if isinstance(od, ast.Call) and dotted(od.func) == "dict":
                     kv = {k.arg: unparse(k.value) for k in od.keywords}
+                    # entries replaced before the call: objdict["state"] = value
+                    for n in own_nodes(f.node):
+                        if od_name and isinstance(n, ast.Assign) and len(n.targets) == 1 and isinstance(n.targets[0], ast.Subscript) \
+                                and unparse(n.targets[0].value) == od_name and isinstance(n.targets[0].slice, ast.Constant):
+                            nn = cfg.node_of(n)
+                            if nn is not None and cfg.dominates(nn, vn):
+                                kv[n.targets[0].slice.value] = unparse(n.value)
+                            else:
+                                kv[n.targets[0].slice.value] = "?"
                     if kv.get(kind) == newval and v.args and unparse(v.args[0]) in ("self._schedules", "self.schedules"):
                         good = True
                     else:
@@ -255,12 +268,48 @@ def _v4(ctx, rep):
             else:
                 ok = True
             rep.check(ok, "V4", f, "None placeholder guard", "`if not target: raise` dominates the push", why, node=g)
-            rev = pushes[0].func.attr == "appendleft" or (pushes[0].func.attr == "insert" and is_num(pushes[0].args[0], 0))
+            # every reversal between the schedule and the argument list flips the order once: the schedule's first item must end up last
+            def peel(e):
+                k = 0
+                while True:
+                    if isinstance(e, ast.Call) and dotted(e.func) == "reversed" and len(e.args) == 1:
+                        e, k = e.args[0], k + 1
+                    elif isinstance(e, ast.Call) and dotted(e.func) in ("list", "tuple") and len(e.args) == 1:
+                        e = e.args[0]
+                    elif isinstance(e, ast.Subscript) and unparse(e.slice) == "::-1":
+                        e, k = e.value, k + 1
+                    else:
+                        return e, k
+            lst = unparse(pushes[0].func.value)
+            flips = 1 if (pushes[0].func.attr == "appendleft" or (pushes[0].func.attr == "insert" and is_num(pushes[0].args[0], 0))) else 0
+            _, k_it = peel(lp.iter)
+            flips += k_it
+            flips += sum(1 for n in own_nodes(f.node) if isinstance(n, ast.Call) and isinstance(n.func, ast.Attribute) and n.func.attr == "reverse"
+                         and unparse(n.func.value) == lst and not n.args)
             comp = [n for n in own_nodes(f.node) if isinstance(n, ast.Call) and (dotted(n.func) or "").endswith("compose_qoperations")]
-            star = bool(comp) and any(isinstance(a, ast.Starred) and unparse(a.value) == unparse(pushes[0].func.value) for a in comp[0].args)
-            rep.check(rev and star, "V4", f, "time order", "items are pushed left and composed right-to-left",
+            star = [a for c in comp for a in c.args if isinstance(a, ast.Starred)]
+            rebinds = [n for n in own_nodes(f.node) if isinstance(n, ast.Assign) and any(unparse(t) == lst for t in n.targets)
+                       and not isinstance(n.value, (ast.List, ast.Call)) ]
+            if len(comp) != 1 or len(star) != 1 or len(comp[0].args) != 1:
+                rep.undecided("V4", f, "time order", "expected one compose_qoperations(*<items>) call")
+                return
+            base, k_arg = peel(star[0].value)
+            # the starred name may be a re-bound copy of the list: x = list(reversed(targets))
+            hops = 0
+            while isinstance(base, ast.Name) and base.id != lst and hops < 4:
+                d = single_defs(f).get(base.id)
+                if d is None:
+                    break
+                base, k2 = peel(d)
+                k_arg += k2
+                hops += 1
+            if unparse(base) != lst or rebinds:
+                rep.undecided("V4", f, "time order", "the composed arguments %s are not the pushed list %s" % (unparse(star[0].value), lst))
+                return
+            flips += k_arg
+            rep.check(flips % 2 == 1, "V4", f, "time order", "the first schedule item becomes the last argument (compose_qoperations applies its last argument first)",
                       "items are pushed with %s and composed as %s: compose_qoperations applies its last argument first, so the schedule "
-                      "must be reversed" % (pushes[0].func.attr, unparse(comp[0])[:80] if comp else None), node=pushes[0])
+                      "must be reversed exactly once (found %d reversal(s))" % (pushes[0].func.attr, unparse(comp[0])[:80], flips), node=pushes[0])
             return
         if len(pushes) == 1 and not guards:
             rep.violation("V4", f, "None placeholder guard", "items are pushed and composed without rejecting None placeholders "
